@@ -349,12 +349,12 @@ def build(cfg) -> Built:
         if cell == "prism" and itype in ("ds",):
             raise Inapplicable("vertex scheme needs a single facet type")
         md = {"quadrature_rule": "vertex", "quadrature_degree": 1}
-    elif quad == "GLL3":
+    elif quad in ("GLL3", "GLL1"):  # GLL1: two points per direction (mass lumping of degree-1 elements) - does NOT integrate the baseline integrand exactly
         ent = cell if itype == "dx" else {"interval": "point", "triangle": "interval", "quadrilateral": "interval", "tetrahedron": "triangle",
                                            "hexahedron": "quadrilateral", "prism": "mixed"}[cell]
         if ent not in ("interval", "quadrilateral", "hexahedron"):
             raise Inapplicable("GLL needs an interval/quadrilateral/hexahedron integration entity")
-        md = {"quadrature_rule": "GLL", "quadrature_degree": 3}
+        md = {"quadrature_rule": "GLL", "quadrature_degree": int(quad[3])}
     elif quad in ("cust1", "cust3"):
         # user-supplied rules on the integration entity that are NOT invariant under the entity's symmetries: one off-centre point / three scattered points
         if itype in ("ds", "dS") and (cell == "prism" or tdim == 1):
